@@ -625,7 +625,7 @@ pub fn run(thorough: bool, mut rng: Rng, mut out: Out) {
         dn_case_check(&mut out, s.as_bytes(), lower.as_bytes());
     }
     // deep nesting (each level is a native recursion of the real parser)
-    for d in [1usize, 10, 100, 500] {
+    for d in [1usize, 10, 63, 64, 100, 500, 2000] {
         let mut s = vec![];
         for _ in 0..d {
             s.extend(b"(!");
